@@ -5,6 +5,8 @@ EnabledA == { <<"c">>, <<"c","a">>, <<"l">>, <<"l","k">>, <<"l","v">>, <<"l","su
 \* slice B: leaf-list, presence container, ordered list
 EnabledB == { <<"c">>, <<"c","a">>, <<"c","ll">>, <<"c","p">>, <<"c","p","x">>, <<"ol">>, <<"ol","k">>, <<"ol","v">> }
 \* slice M: the two-key list
+\* slice O: the ordered list with a nested container in its entries
+EnabledO == { <<"ol">>, <<"ol","k">>, <<"ol","sub">>, <<"ol","sub","w">> }
 EnabledM == { <<"c">>, <<"c","a">>, <<"m">>, <<"m","k1">>, <<"m","k2">>, <<"m","v">> }
 \* everything
 EnabledAll == DOMAIN SK
